@@ -10,11 +10,11 @@ def plans(quick):
             dict(family='chain',
                  checks=[dict(steps=6, slots=2, rcs=['r1', 'r2', 'r4'], force=False, fail=False, count=True),
                          dict(steps=4, slots=1, rcs=['r1', 'r2', 'r4'], count=True)],
-                 gen=dict(steps=4, slots=1, lists=[['r1'], ['r4'], ['r1', 'r2']], force=False), cover_limit=150,
+                 gen=dict(steps=4, slots=1, lists=[['r1'], ['r4'], ['r1', 'r2']], force=False), cover_limit=None,
                  walks=60, sim=dict(num=200, depth=14, force=False, fail=False)),
             dict(family='diamond',
                  checks=[dict(steps=5, slots=2, force=False, fail=False, count=True, rcs=['d1', 'd2'])],
-                 gen=dict(steps=4, slots=1, lists=[['d1'], ['d2'], ['d1', 'd2']], force=False), cover_limit=120,
+                 gen=dict(steps=4, slots=1, lists=[['d1'], ['d2'], ['d1', 'd2']], force=False), cover_limit=None,
                  walks=40, sim=dict(num=150, depth=12)),
             # two chain variables over ONE configuration, exhaustively: inspection / requests of one chain interleaved
             # with computations through the other
